@@ -39,6 +39,8 @@ static std::vector<MDoc> MDOCS;
 static void put_files() {
     g_vfs->put("/v/e.dtd", "<!ELEMENT r (#PCDATA|c)*><!ELEMENT c EMPTY><!ATTLIST c d CDATA 'extdv' i ID #IMPLIED><!ENTITY e 'extev'><!ENTITY x SYSTEM 'x.ent'>");
     g_vfs->put("/v/x.ent", "<c/>xt");
+    g_vfs->put("/v/bad.ent", "<?xml version=\"1.0\" enc\xE9oding=\"UTF-8\"?>t");
+    g_vfs->put("/v/bad.dtd", "<?xml version=\"1.0\" enc\xE9oding=\"UTF-8\"?><!ELEMENT r ANY>");
     g_vfs->put("/v/a.xsd", "<xs:schema xmlns:xs='http://www.w3.org/2001/XMLSchema' targetNamespace='urn:a' xmlns='urn:a' elementFormDefault='qualified'><xs:element name='r'><xs:complexType><xs:sequence><xs:element name='c' type='xs:int' maxOccurs='2'/></xs:sequence><xs:attribute name='d' type='xs:string' default='adv'/></xs:complexType><xs:unique name='u'><xs:selector xpath='c'/><xs:field xpath='.'/></xs:unique></xs:element></xs:schema>");
 }
 static void init_docs(int k) {
@@ -53,6 +55,13 @@ static void init_docs(int k) {
     MDOCS.push_back({"schema-invalid", "<r xmlns='urn:a' xmlns:xsi='http://www.w3.org/2001/XMLSchema-instance' xsi:schemaLocation='urn:a a.xsd' q='1'><c>x</c><c>2</c><c>2</c></r>"});
     MDOCS.push_back({"attr-no-value", "<r><c a=></c></r>"});
     MDOCS.push_back({"deep", "<a><b><c><d><e>t</e></d></c></b></a>"});
+    // entities whose XMLReader cannot even be constructed (declaration cannot be pre-decoded / truncated / bad text declaration)
+    MDOCS.push_back({"xmldecl-non-ascii-byte", "<?xml version=\"1.0\" standalone=\"n\xE9\"?><a/>"});
+    MDOCS.push_back({"xmldecl-utf16-truncated", std::string("\xFF\xFE<\0?\0x\0m\0l\0 \0v\0", 15)});
+    MDOCS.push_back({"xmldecl-unknown-encoding", "<?xml version='1.0' encoding='x-no-such-encoding'?><a/>"});
+    MDOCS.push_back({"ext-entity-bad-textdecl", "<!DOCTYPE r [<!ENTITY x SYSTEM 'bad.ent'>]><r>&x;</r>"});
+    MDOCS.push_back({"ext-subset-bad-textdecl", "<!DOCTYPE r SYSTEM 'bad.dtd'><r/>"});
+    MDOCS.push_back({"forced-unsupported-encoding", "\x01" "FORCE:x-no-such-encoding\x01<a/>"});
 }
 
 // ------------------------------------------------------------------------------------------ one scenario = (doc, api, lifetime) ; endings enumerated inside
@@ -66,7 +75,10 @@ static RunInfo one_run(int api, int lifetime, const std::string& bytes, int thro
     RunInfo info;
     ParseResult r;
     Config cfg = base_cfg(api == 3 ? (int)DOM : api); cfg.throwAt = throwAt;
-    MemBufInputSource src((const XMLByte*)bytes.data(), bytes.size(), X16("/v/doc.xml").p(), false, mm);
+    std::string body = bytes, forced;
+    if (body.compare(0, 7, "\x01" "FORCE:") == 0) { size_t e = body.find('\x01', 1); forced = body.substr(7, e - 7); body = body.substr(e + 1); }
+    MemBufInputSource src((const XMLByte*)body.data(), body.size(), X16("/v/doc.xml").p(), false, mm);
+    if (!forced.empty()) src.setEncoding(X16(forced).p());
     const char* second = "<z>again</z>";
     MemBufInputSource src2((const XMLByte*)second, strlen(second), X16("/v/doc2.xml").p(), false, mm);
     try {
